@@ -7,5 +7,5 @@ MCShapes == GenSepShapes
 MCProps == {"C13"}
 MCScript == <<"SetObj", "NewEmpty", "CopyTo", "FreshObj", "CopyFrom">>
 ASSUME PrintT("SHAPES " \o ToJson(MCShapes))
-INSTANCE Session WITH Shapes <- MCShapes, Script <- MCScript, Deep <- MCDeep, Props <- MCProps, ObjMode <- "all", RawMode <- "plans"
+INSTANCE Session WITH Shapes <- MCShapes, Script <- MCScript, Deep <- MCDeep, Props <- MCProps, ObjMode <- "all", RawMode <- "plans", EmptyMode <- "plain"
 ====
